@@ -34,6 +34,7 @@ type Event struct {
 	Atomic bool
 	Pos    string
 	Stack  string
+	Ctxs   string // park events: cancellable contexts among the select cases
 	Aux    string
 	Peer   *Event // wake <-> enq, unlock <-> lock …
 	Held   []string
@@ -62,11 +63,12 @@ type ThreadPath struct {
 }
 
 type ThreadSpec struct {
-	Name   string
-	Fn     Value
-	Args   []Value
-	Parent int // spawning thread (0 = setup), event index of the go statement in the parent path
-	Paths  []*ThreadPath
+	Name      string
+	Fn        Value
+	Args      []Value
+	Parent    int    // spawning thread (0 = setup), event index of the go statement in the parent path
+	EnvCancel string // environment thread: cancels the named context at any moment, or never
+	Paths     []*ThreadPath
 }
 
 type refCand struct {
@@ -81,40 +83,40 @@ type ConcState struct {
 	threads   []*ThreadSpec // index 1..n (0 unused)
 	cur       *ThreadPath
 	// knowledge from earlier passes
-	writers   map[string]map[int]bool // loc -> threads writing it
-	cands     map[string][]refCand    // loc -> reference values written by threads
-	newWrite  map[string]map[int]bool
-	newCands  map[string][]refCand
-	snap      *heapSnap
-	evSeq     int
-	allocSeq  map[string]int
-	foreign   map[string]*Object
-	final     *ThreadPath
-	blockedV  map[string]*Term
-	initVals  map[string]Value
-	refIDs    map[string]int
-	refVals   map[string]Value
-	pubDone   map[*Object]bool
-	heldLocks []string
-	goParent  map[int][2]int // child thread -> (parent thread, parent event idx)
+	writers      map[string]map[int]bool // loc -> threads writing it
+	cands        map[string][]refCand    // loc -> reference values written by threads
+	newWrite     map[string]map[int]bool
+	newCands     map[string][]refCand
+	snap         *heapSnap
+	evSeq        int
+	allocSeq     map[string]int
+	foreign      map[string]*Object
+	final        *ThreadPath
+	blockedV     map[string]*Term
+	initVals     map[string]Value
+	refIDs       map[string]int
+	refVals      map[string]Value
+	pubDone      map[*Object]bool
+	heldLocks    []string
+	goParent     map[int][2]int // child thread -> (parent thread, parent event idx)
 	pathParentEv map[int]int
-	timersByCh map[*ChanV]*Event
-	raceMode  bool
-	snapIdx   map[*Object]int
-	incomplete bool
-	readCache  map[string]Value
+	timersByCh   map[*ChanV]*Event
+	raceMode     bool
+	snapIdx      map[*Object]int
+	incomplete   bool
+	readCache    map[string]Value
 }
 
 type heapSnap struct {
-	objs   []*Object
-	vals   []Value
-	shared []bool
-	maps   []*MapV
-	mapE   []map[string]*mapEntry
-	chans  []*ChanV
-	chanS  []ChanV
-	locks  map[string]lockState
-	clock  *Term
+	objs    []*Object
+	vals    []Value
+	shared  []bool
+	maps    []*MapV
+	mapE    []map[string]*mapEntry
+	chans   []*ChanV
+	chanS   []ChanV
+	locks   map[string]lockState
+	clock   *Term
 	nTimers int
 	nextObj int
 	nondets int
@@ -300,6 +302,15 @@ func (ex *Exec) exploreThread(t int) {
 	c := ex.conc
 	spec := c.threads[t]
 	spec.Paths = nil
+	if spec.EnvCancel != "" {
+		c.curThread = t
+		c.mode = "thread"
+		c.cur = &ThreadPath{Thread: t, End: "done"}
+		c.heldLocks = nil
+		ex.addEvent(&Event{Kind: "cancel", Loc: "ctx:" + spec.EnvCancel})
+		spec.Paths = []*ThreadPath{c.cur, {Thread: t, End: "done"}}
+		return
+	}
 	pending := [][]int{{}}
 	explored := 0
 	var seenSig map[string]bool
@@ -999,7 +1010,7 @@ func (ex *Exec) concCond(p *Ptr, op string) {
 	case "broadcast":
 		ex.addEvent(&Event{Kind: "bcast", Loc: loc})
 	case "signal":
-		panic(unsupported("sync.Cond.Signal in concurrent mode"))
+		ex.addEvent(&Event{Kind: "signal", Loc: loc})
 	case "wait":
 		if c.mode == "final" {
 			panic(goBlocked{"Cond.Wait in the quiescent phase"})
@@ -1176,6 +1187,7 @@ func (ex *Exec) concSelect(fr *Frame, x *ssa.Select) Value {
 		cand *refCand
 	}
 	var opts []option
+	var ctxNames []string
 	for i, st := range x.States {
 		ch := chans[i]
 		if ch.Nil || st.Dir != types.RecvOnly {
@@ -1192,6 +1204,7 @@ func (ex *Exec) concSelect(fr *Frame, x *ssa.Select) Value {
 		case ch.Ctx != nil:
 			if ch.Ctx.CancelEvent {
 				opts = append(opts, option{i, "cancel", nil})
+				ctxNames = append(ctxNames, "ctx:"+ch.Ctx.Name)
 			}
 		default:
 			opts = append(opts, option{i, "closed", nil})
@@ -1212,6 +1225,7 @@ func (ex *Exec) concSelect(fr *Frame, x *ssa.Select) Value {
 		nOpts = len(opts) // an armed timer always fires eventually: the select cannot stay parked forever
 	}
 	k := ex.ctl.Choose(nOpts, func(int) bool { return true })
+	park.Ctxs = strings.Join(ctxNames, ",")
 	if k == len(opts) {
 		park.Aux = "never-woken"
 		var locs []string
@@ -1226,6 +1240,9 @@ func (ex *Exec) concSelect(fr *Frame, x *ssa.Select) Value {
 	o := opts[k]
 	ch := chans[o.idx]
 	w := ex.addEvent(&Event{Kind: "selwake", Loc: chanLoc(ch), Aux: o.kind, Peer: park, Cap: ch.Cap})
+	if o.kind == "cancel" {
+		w.Loc = "ctx:" + ch.Ctx.Name
+	}
 	park.Peer = w
 	var locs []string
 	for i := range x.States {
@@ -1328,9 +1345,9 @@ func (ex *Exec) composeAndCheck() {
 }
 
 type lockSection struct {
-	thread     int
-	lock, unl  *Event
-	read       bool
+	thread    int
+	lock, unl *Event
+	read      bool
 }
 
 func (ex *Exec) checkCombo(combo []*ThreadPath, final *ThreadPath, finalPC []*Term) {
@@ -1509,29 +1526,122 @@ func (ex *Exec) checkCombo(combo []*ThreadPath, final *ThreadPath, finalPC []*Te
 		}
 	}
 	// condition variables
+	condLocs := map[string]bool{}
 	for _, e := range events {
-		if e.Kind != "enq" {
-			continue
+		if e.Kind == "enq" {
+			condLocs[e.Loc] = true
 		}
-		var bs []*Event
-		for _, b := range events {
-			if b.Kind == "bcast" && b.Loc == e.Loc {
-				bs = append(bs, b)
+	}
+	for loc := range condLocs {
+		var ws, bs, ss []*Event
+		for _, e := range events {
+			if e.Loc != loc {
+				continue
+			}
+			switch e.Kind {
+			case "enq":
+				ws = append(ws, e)
+			case "bcast":
+				bs = append(bs, e)
+			case "signal":
+				ss = append(ss, e)
 			}
 		}
-		if e.Peer != nil { // woken: some broadcast after the ticket and before the wake-up
+		if len(ss) == 0 {
+			for _, e := range ws {
+				if e.Peer != nil { // woken: some broadcast after the ticket and before the wake-up
+					var alts []string
+					for _, b := range bs {
+						alts = append(alts, fmt.Sprintf("(and %s %s)", lt(e, b), lt(b, e.Peer)))
+					}
+					if len(alts) == 0 {
+						assertf("false")
+					} else {
+						assertf("(or %s)", strings.Join(alts, " "))
+					}
+				} else { // never woken: every broadcast precedes the ticket
+					for _, b := range bs {
+						assertf("%s", lt(b, e))
+					}
+				}
+			}
+			continue
+		}
+		// with Signal: wt_w = instant of the event that wakes waiter w (N+1: never); a signal wakes
+		// the pending waiter with the oldest ticket (sync.Cond's notify list is FIFO)
+		never := len(events) + 1
+		for _, w := range ws {
+			fmt.Fprintf(&sb, "(declare-const wt%d Int)\n", w.ID)
+		}
+		for _, sg := range ss {
+			fmt.Fprintf(&sb, "(declare-const tgt%d Int)\n", sg.ID)
+		}
+		for _, w := range ws {
+			if w.Peer != nil {
+				assertf("(and (< %s wt%d) (< wt%d %s))", ex.clk(w), w.ID, w.ID, ex.clk(w.Peer))
+				var alts []string
+				for _, b := range bs {
+					alts = append(alts, fmt.Sprintf("(= wt%d %s)", w.ID, ex.clk(b)))
+				}
+				for _, sg := range ss {
+					alts = append(alts, fmt.Sprintf("(and (= wt%d %s) (= tgt%d %d))", w.ID, ex.clk(sg), sg.ID, w.ID))
+				}
+				assertf("(or %s)", strings.Join(alts, " "))
+				for _, b := range bs {
+					assertf("(not (and %s (< %s wt%d)))", lt(w, b), ex.clk(b), w.ID)
+				}
+			} else {
+				assertf("(= wt%d %d)", w.ID, never)
+				for _, b := range bs {
+					assertf("%s", lt(b, w))
+				}
+			}
+		}
+		for _, sg := range ss {
 			var alts []string
-			for _, b := range bs {
-				alts = append(alts, fmt.Sprintf("(and %s %s)", lt(e, b), lt(b, e.Peer)))
+			var none []string
+			for _, w := range ws {
+				none = append(none, fmt.Sprintf("(=> %s (< wt%d %s))", lt(w, sg), w.ID, ex.clk(sg)))
+			}
+			alts = append(alts, fmt.Sprintf("(and (= tgt%d 0) %s)", sg.ID, strings.Join(none, " ")))
+			for _, w := range ws {
+				conj := []string{fmt.Sprintf("(= tgt%d %d)", sg.ID, w.ID), lt(w, sg), fmt.Sprintf("(= wt%d %s)", w.ID, ex.clk(sg))}
+				for _, w2 := range ws {
+					if w2 != w {
+						conj = append(conj, fmt.Sprintf("(=> %s (< wt%d %s))", lt(w2, w), w2.ID, ex.clk(sg)))
+					}
+				}
+				alts = append(alts, "(and "+strings.Join(conj, " ")+")")
+			}
+			assertf("(or %s)", strings.Join(alts, " "))
+		}
+	}
+	// contexts cancelled by the environment
+	for _, e := range events {
+		var cancels []*Event
+		for _, k := range events {
+			if k.Kind == "cancel" && (k.Loc == e.Loc || (e.Kind == "park" && strings.Contains(","+e.Ctxs+",", ","+k.Loc+","))) {
+				cancels = append(cancels, k)
+			}
+		}
+		switch {
+		case e.Kind == "ctxerr" && e.Aux == "cancelled", e.Kind == "selwake" && e.Aux == "cancel":
+			var alts []string
+			for _, k := range cancels {
+				alts = append(alts, lt(k, e))
 			}
 			if len(alts) == 0 {
 				assertf("false")
 			} else {
 				assertf("(or %s)", strings.Join(alts, " "))
 			}
-		} else { // never woken: every broadcast precedes the ticket
-			for _, b := range bs {
-				assertf("%s", lt(b, e))
+		case e.Kind == "ctxerr" && e.Aux == "live":
+			for _, k := range cancels {
+				assertf("%s", lt(e, k))
+			}
+		case e.Kind == "park" && e.Peer == nil && e.Ctxs != "":
+			if len(cancels) > 0 {
+				assertf("false") // a cancelled context would wake the parked select
 			}
 		}
 	}
